@@ -18,7 +18,10 @@ PROPS = {
         "assumptions": ["the three random draws of from_ip are arbitrary bytes (universally quantified in the theorem, observed in the tie)"],
     },
     "C19": {
-        "engines": [{"name": "tid", "quick": 8, "thorough": 40}],
+        "engines": [{"name": "tid", "quick": 8, "thorough": 40},
+                    # the ids on the wire: every query a real node sends is checked by the [C19] oracle
+                    # (8 bytes; one id goes to one address once; only a bootstrap first round shares its id)
+                    {"name": "node", "quick": 42, "thorough": 140, "oracle_tag": "C19"}],
         "constants": ["ACTION_ID_BYTES", "MESSAGE_ID_BYTES", "ACTION_ID_PREALLOC_LEN", "MESSAGE_ID_PREALLOC_LEN"],
         "trusted": COMMON_TRUST + ["the shuffle of each id block is an arbitrary permutation (oracle input read through the hook accessor)"],
         "assumptions": ["rand's shuffle returns a permutation of the block"],
